@@ -103,7 +103,7 @@ async fn run_fetch(beh: &[Value], u: &Universe, p: &Params, store_path: &str, re
     settle().await;
 
     let mut conns: Vec<(std::net::SocketAddr, Framed<tokio::io::DuplexStream, LengthDelimitedCodec>)> = Vec::new();
-    // the schedule, then a quiet suffix of 100 s in which nothing is answered: whatever is still outstanding must be re-requested elsewhere.
+    // the schedule, then a quiet suffix of 200 s in which nothing is answered: whatever is still outstanding must be re-requested elsewhere.
     // Time never jumps over a timer deadline (as in Fetch.tla): the suffix advances from deadline to deadline of the two retry timers.
     let mut moves: Vec<Value> = beh.to_vec();
     {
@@ -118,7 +118,7 @@ async fn run_fetch(beh: &[Value], u: &Universe, p: &Params, store_path: &str, re
             }
         }
         let mut total = 0u64;
-        while total < 100_000 {
+        while total < 200_000 {
             let step = bleft.min(mleft);
             moves.push(json!({"a":"advance","ms":step}));
             pass(step, &mut bleft, &mut mleft);
